@@ -1,3 +1,542 @@
 import LocustModel.Proto
-/- Driver stub for C04 (replaced when the property's model is built). -/
-def main : IO Unit := LM.Proto.runDriver fun _ => "?\t?"
+import LocustModel.Query.SqlProto
+import LocustModel.Query.GroupSpec
+import LocustModel.Query.GroupMerge
+import LocustModel.Query.GroupApi
+/-
+  Driver for C04.  One output line per input line:  <model> TAB <spec verdict> [TAB <known finding id>]
+
+  unit stream (pure merge step functions through the hook wrappers):
+    dedup <l> <r>                                   k:<keys> o:<LRM…>
+    mdrop <kl> <kr> <cl> <cr>                       c:<column>
+    part <limit|_> <l> <r>                          p:<l/r,…>
+    subpart <partitioning> <l> <r>                  p:<l/r,…>
+    mdp <partitioning> <l> <r>                      k:<keys> o:<ops>
+    mtree <op> <nk> <tree> <np> (<keycols> <vals>)* k:<c1|c2…> v:<vals> | err:overflow | panic
+  api stream:
+    grp <sel> <where|-> <impl> <bounds> <meta> <phys> <ncols> <cols…>
+-/
+namespace LM.DrvC04
+open LM LM.Proto LM.Sql LM.SqlProto LM.GroupSpec LM.GroupMerge LM.GroupApi LM.Merge
+
+/-! ### parsing / printing -/
+
+def parseInts (s : String) : Option (List Int) := parseList parseInt? s
+
+def showInts (xs : List Int) : String := showList showInt xs
+
+def showOps (ops : List MergeOp) : String :=
+  if ops.isEmpty then "-" else String.ofList (ops.map fun | .takeLeft => 'L' | .takeRight => 'R' | .mergeRight => 'M')
+
+def parseOps (s : String) : Option (List MergeOp) :=
+  if s = "-" then some [] else s.toList.mapM fun c =>
+    if c = 'L' then some MergeOp.takeLeft else if c = 'R' then some .takeRight else if c = 'M' then some .mergeRight else none
+
+def showPre (p : List Premerge) : String := showList (fun x => toString x.left ++ "/" ++ toString x.right) p
+
+def parsePre (s : String) : Option (List Premerge) :=
+  parseList (fun t => match t.splitOn "/" with
+    | [a, b] => (a.toNat?).bind fun x => (b.toNat?).map fun y => ⟨x, y⟩
+    | _ => none) s
+
+def parseAgg (s : String) : Option Agg :=
+  if s = "sum" then some .sum else if s = "count" then some .count
+  else if s = "max" then some .max else if s = "min" then some .min else none
+
+def parseKeyCols (s : String) : Option (List (List Int)) := (s.splitOn "|").mapM parseInts
+
+def showPart (p : Part) : String :=
+  "k:" ++ "|".intercalate (p.keys.map showInts) ++ " v:" ++ showInts p.vals
+
+/-- `((01)2)` -/
+def parseTree (cs : List Char) : Option (Tree × List Char) :=
+  let rec go : Nat → List Char → Option (Tree × List Char)
+    | 0, _ => none
+    | fuel + 1, '(' :: rest =>
+        (go fuel rest).bind fun (l, r1) => (go fuel r1).bind fun (r, r2) =>
+          match r2 with
+          | ')' :: r3 => some (.node l r, r3)
+          | _ => none
+    | _ + 1, c :: rest => if c.isDigit then some (.leaf (c.toNat - '0'.toNat), rest) else none
+    | _ + 1, [] => none
+  go 64 cs
+
+def strictAsc : List Int → Bool
+  | a :: b :: t => decide (a < b) && strictAsc (b :: t)
+  | _ => true
+
+def sortedAsc : List Int → Bool
+  | a :: b :: t => decide (a ≤ b) && sortedAsc (b :: t)
+  | _ => true
+
+def insertSorted (x : Int) : List Int → List Int
+  | [] => [x]
+  | y :: ys => if x < y then x :: y :: ys else if x = y then y :: ys else y :: insertSorted x ys
+
+def sortedUnion (l r : List Int) : List Int := (l ++ r).foldl (fun acc x => insertSorted x acc) []
+
+/-! ### unit stream -/
+
+def stepDedup (ls rs impl : String) : String :=
+  match parseInts ls, parseInts rs with
+  | some l, some r =>
+      let (m, o) := mergeDedup false none l r
+      let model := "k:" ++ showInts m ++ " o:" ++ showOps o
+      let spec :=
+        if strictAsc l && strictAsc r then
+          -- every distinct key once, ascending; the ops are a well-formed script reproducing the keys
+          match impl.splitOn " " with
+          | [k, os] =>
+              (match parseInts (k.drop 2).toString, parseOps (os.drop 2).toString with
+               | some ik, some iops =>
+                   if ik = sortedUnion l r ∧ mergeDrop iops l r = some ik then "OK"
+                   else "BAD expected keys " ++ showInts (sortedUnion l r)
+               | _, _ => "BAD unparsable")
+          | _ => "BAD expected keys " ++ showInts (sortedUnion l r)
+        else "SKIP"
+      model ++ "\t" ++ spec
+  | _, _ => "bad-op\tbad-op"
+
+def stepDrop (kls krs cls crs : String) : String :=
+  match parseInts kls, parseInts krs, parseInts cls, parseInts crs with
+  | some kl, some kr, some cl, some cr =>
+      let (_, o) := mergeDedup false none kl kr
+      let model := match mergeDrop o cl cr with | some c => "c:" ++ showInts c | none => "panic"
+      let spec :=
+        if strictAsc kl && strictAsc kr then
+          -- the companion column of the union: the left cell where the key exists on the left, else the right cell
+          let pick := (sortedUnion kl kr).map fun k =>
+            match (kl.zip cl).find? (·.1 = k) with
+            | some p => p.2
+            | none => ((kr.zip cr).find? (·.1 = k)).elim 0 (·.2)
+          "c:" ++ showInts pick
+        else "SKIP"
+      model ++ "\t" ++ spec
+  | _, _, _, _ => "bad-op\tbad-op"
+
+def distinctCount (xs : List Int) : Nat := (xs.foldl (fun acc x => insertSorted x acc) []).length
+
+def stepPart (lim ls rs impl : String) : String :=
+  match parseInts ls, parseInts rs with
+  | some l, some r =>
+      let limit := if lim = "_" then 18446744073709551615 else lim.toNat?.getD 0
+      let model := "p:" ++ showPre (partition false l r limit)
+      let spec :=
+        if lim = "_" ∧ sortedAsc l ∧ sortedAsc r then
+          match parsePre (impl.drop 2).toString with
+          | some p =>
+              if (p.map (·.left)).foldl (· + ·) 0 = l.length ∧ (p.map (·.right)).foldl (· + ·) 0 = r.length ∧
+                 p.length = distinctCount (l ++ r) ∧ p.all (fun g => g.left + g.right > 0) then "OK"
+              else "BAD runs do not tile the inputs one run per distinct value"
+          | none => "BAD unparsable"
+        else "SKIP"
+      model ++ "\t" ++ spec
+  | _, _ => "bad-op\tbad-op"
+
+def stepSubpart (ps ls rs : String) : String :=
+  match parsePre ps, parseInts ls, parseInts rs with
+  | some p, some l, some r =>
+      (match subpartition false p l r with | some q => "p:" ++ showPre q | none => "panic") ++ "\tSKIP"
+  | _, _, _ => "bad-op\tbad-op"
+
+def stepMdp (ps ls rs : String) : String :=
+  match parsePre ps, parseInts ls, parseInts rs with
+  | some p, some l, some r =>
+      (match mergeDedupPartitioned p l r with
+       | some (m, o) => "k:" ++ showInts m ++ " o:" ++ showOps o
+       | none => "panic") ++ "\tSKIP"
+  | _, _, _ => "bad-op\tbad-op"
+
+def parseParts : List String → Option (List Part)
+  | [] => some []
+  | k :: v :: rest => do
+      let ks ← parseKeyCols k
+      let vs ← parseInts v
+      let t ← parseParts rest
+      pure (⟨ks, vs⟩ :: t)
+  | _ => none
+
+def showMergeRes : MergeRes → String
+  | .ok p => showPart p
+  | .overflow => "err:overflow"
+  | .fault => "panic"
+
+def lexStrict : List (List Int) → Bool
+  | a :: b :: t => GroupMerge.tupleLt a b && lexStrict (b :: t)
+  | _ => true
+
+/-- judge the implementation's merged part against the exact union -/
+def judgeTree (op : Agg) (parts : List Part) (t : Tree) (impl : String) : String × String :=
+  let wellFormed := parts.all fun p =>
+    p.keys.all (fun c => c.length = p.vals.length) && lexStrict (rowsOfKeys p.keys p.vals.length)
+  if !wellFormed then ("SKIP", "") else
+  let leaves := t.leaves.filterMap fun i => parts[i]?
+  let exact := specUnion op leaves
+  let may := unionMayOverflow op leaves
+  let known := if nodeHitsSentinel op parts t then "sum-sentinel" else ""
+  if !denotFits exact then
+    (if impl = "err:overflow" then "OK" else "BAD the exact result does not fit i64: expected err:overflow", known)
+  else if impl = "err:overflow" then
+    (if may then "OK" else "BAD no order of summation overflows", known)
+  else
+    match impl.splitOn " " with
+    | [k, v] =>
+        (match parseKeyCols (k.drop 2).toString, parseInts (v.drop 2).toString with
+         | some kc, some vs =>
+             let got : Denot := (rowsOfKeys kc vs.length).zip (vs.map decodeVal)
+             let nk := (parts.head?.map (·.keys.length)).getD 0
+             let got := if nk = 0 then (vs.map decodeVal).map fun x => ([], x) else got
+             if got = exact then ("OK", "")
+             else ("BAD expected " ++ " ".intercalate (exact.map fun kv =>
+                    showInts kv.1 ++ "=" ++ (match kv.2 with | some x => toString x | none => "_")), known)
+         | _, _ => ("BAD unparsable", known))
+    | _ => ("BAD expected a merged part", known)
+
+def stepTree (ops nks ts : String) (rest : List String) (impl : String) : String :=
+  match parseAgg ops, nks.toNat?, parseTree ts.toList, rest with
+  | some op, some _, some (t, []), _ :: ptoks =>
+      (match parseParts ptoks with
+       | some parts =>
+           let model := showMergeRes (evalTree op parts t)
+           let (spec, known) := judgeTree op parts t impl
+           model ++ "\t" ++ spec ++ (if known = "" ∨ spec = "OK" ∨ spec = "SKIP" then "" else "\t" ++ known)
+       | none => "bad-op\tbad-op")
+  | _, _, _, _ => "bad-op\tbad-op"
+
+/-! ### api stream -/
+
+def parseSelItem (s : String) : Option SelItem :=
+  match s.toList with
+  | ['n'] => some (.agg ⟨.count1, 0⟩)
+  | c :: rest =>
+      (String.ofList rest).toNat?.bind fun i =>
+        if c = 'g' then some (.key i)
+        else if c = 'c' then some (.agg ⟨.count, i⟩)
+        else if c = 's' then some (.agg ⟨.sum, i⟩)
+        else if c = 'm' then some (.agg ⟨.min, i⟩)
+        else if c = 'M' then some (.agg ⟨.max, i⟩)
+        else if c = 'a' then some (.agg ⟨.avg, i⟩)
+        else none
+  | [] => none
+
+def sortStrings (xs : List String) : List String := xs.mergeSort (fun a b => decide (a ≤ b))
+
+/-- `0-5,5-9` -/
+def parseBounds (s : String) : Option (List (Nat × Nat)) :=
+  parseList (fun t => match t.splitOn "-" with
+    | [a, b] => (a.toNat?).bind fun x => (b.toNat?).map fun y => (x, y)
+    | _ => none) s
+
+/-- `A` (absent) or four `/`-separated fields: encoding type, range `min:max` or `-`, codec ops joined by `+` or `id`, nullable `0`/`1`. -/
+def parseColMeta (s : String) : Option ColMeta :=
+  if s = "A" then some ColMeta.absent else
+  match s.splitOn "/" with
+  | [enc, range, ops, nullable] =>
+      let r : Option (Option (Int × Int)) :=
+        if range = "-" then some none else
+        -- "<min>:<max>", both possibly negative
+        match range.splitOn ":" with
+        | [a, b] => (a.toInt?).bind fun x => (b.toInt?).map fun y => some (x, y)
+        | _ => none
+      -- nullable as the planner sees it: the codec assembles a null map (`full_type()` misses it for float columns)
+      let opl := if ops = "id" then [] else ops.splitOn "+"
+      r.map fun rg => ⟨true, enc, rg, opl, nullable = "1" || opl.contains "Nullable"⟩
+  | _ => none
+
+def parseMeta (s : String) : Option (List (List ColMeta)) :=
+  if s = "[]" then some [] else (s.splitOn ";").mapM fun p => (p.splitOn "|").mapM parseColMeta
+
+structure ApiCase where
+  sel : List SelItem
+  pred : Option Expr
+  impl : String
+  bounds : List (Nat × Nat)
+  metas : List (List ColMeta)
+  rows : List Row
+  cols : List (List Val)
+  batchSize : Nat
+
+def showOut : Out → String
+  | .rows rs => "rows:" ++ showRows rs
+  | .overflow => "err:overflow"
+  | .fault => "panic"
+  | .unknown => "?"
+
+/-- Per-partition kept rows (WHERE evaluated by the reference semantics; filtering is C03's subject). -/
+def keptRows (c : ApiCase) : Option (List (List Row)) :=
+  c.bounds.mapM fun (s, e) =>
+    match filterRows i2fNative c.pred ((c.rows.drop s).take (e - s)) with
+    | .ok k => some k
+    | _ => none
+
+/-- Everything the implementation model says about a case: outcomes along every merge tree, per-partition results. -/
+structure ModelRun where
+  outs : List Out
+  parts : List PRes
+  early : Option Out      -- an outcome that does not depend on the tree (partition failed / not predictable)
+
+def runModel (c : ApiCase) : ModelRun :=
+  let keys := c.sel.filterMap SelItem.keyCol?
+  let iaggs := expandSel c.sel
+  let isFloat : IAgg → Bool := fun a => match a with
+    | .cnt1 | .cnt _ => false
+    | .sum col | .min col | .max col => colKind (c.cols.getD col []) = .float
+  -- a referenced column must be single-typed int / float
+  let badType := iaggs.any fun a => match a with
+    | .cnt1 | .cnt _ => false
+    | .sum col | .min col | .max col => colKind (c.cols.getD col []) = .other
+  if badType then ⟨[], [], some .unknown⟩ else
+  match keptRows c with
+  | none => ⟨[], [], some .unknown⟩
+  | some kepts =>
+      let pouts := (kepts.zip c.metas).map fun (k, m) => partitionResult keys iaggs m k
+      if kepts.length ≠ c.metas.length then ⟨[], [], some .unknown⟩
+      else if pouts.any (fun p => match p with | .unknown => true | _ => false) then ⟨[], [], some .unknown⟩
+      else if pouts.any (fun p => match p with | .overflow => true | _ => false) then ⟨[], [], some .overflow⟩
+      else
+        let parts := pouts.filterMap fun p => match p with | .ok r => some r | _ => none
+        let trees := allTrees 8 0 parts.length
+        ⟨trees.map (runTree c.sel keys iaggs isFloat parts), parts, none⟩
+
+/-- A SUM whose exact value (over the group's rows inside one partition, or over a merged prefix) is i64::MAX. -/
+def sumHitsSentinel (c : ApiCase) : Bool :=
+  -- any contiguous run of partitions, any group, any SUM/AVG column: exact sum of the non-NULL inputs = i64::MAX
+  let keys := c.sel.filterMap SelItem.keyCol?
+  let sumCols := c.sel.filterMap fun
+    | .agg a => if a.fn = .sum ∨ a.fn = .avg then some a.col else none
+    | .key _ => none
+  match keptRows c with
+  | none => false
+  | some kepts =>
+      let n := kepts.length
+      (List.range n).any fun i => (List.range (n - i)).any fun len =>
+        let rows := ((kepts.drop i).take (len + 1)).flatten
+        (groupRows keys rows).any fun g => sumCols.any fun col =>
+          match ints? ((colCells col g.2).filter (· ≠ .null)) with
+          | some (x :: xs) => (x :: xs).foldl (· + ·) 0 = I64_MAX
+          | _ => false
+
+/-- COUNT(c) / AVG(c) over a nullable column with a group that has no non-NULL input. -/
+def countNullGroup (c : ApiCase) : Bool :=
+  let keys := c.sel.filterMap SelItem.keyCol?
+  let cols := c.sel.filterMap fun
+    | .agg a => if a.fn = .count ∨ a.fn = .avg then some a.col else none
+    | .key _ => none
+  match filterRows i2fNative c.pred c.rows with
+  | .ok kept => (groupRows keys kept).any fun g => cols.any fun col =>
+      ((colCells col g.2).filter (· ≠ .null)).isEmpty
+  | _ => false
+
+/-- columns the select list refers to -/
+def selCols (sel : List SelItem) : List Nat :=
+  sel.filterMap fun
+    | .key c => some c
+    | .agg a => if a.fn = .count1 then none else some a.col
+
+/-- `groupby-absent-column`: a selected column has no data in some partition (absent from it, or stored as the
+    all-NULL column type). -/
+def absentTrigger (c : ApiCase) : Bool :=
+  (selCols c.sel).any fun col => c.metas.any fun pm =>
+    let m := pm.getD col ColMeta.absent
+    !m.present || m.enc = "Null"
+
+/-- `groupby-nullable-float-key`: a float grouping column that is nullable in some partition. -/
+def floatNullKeyTrigger (c : ApiCase) : Bool :=
+  (c.sel.filterMap SelItem.keyCol?).any fun col =>
+    colKind (c.cols.getD col []) = .float && c.metas.any fun pm => (pm.getD col ColMeta.absent).nullable
+
+/-- `agg-absent-column` (filed by C02): an aggregate input is absent from a partition and the query fails with FatalError. -/
+def aggAbsentTrigger (c : ApiCase) : Bool :=
+  (c.sel.filterMap fun
+    | .agg a => if a.fn = .count1 then none else some a.col
+    | .key _ => none).any fun col => c.metas.any fun pm =>
+      let m := pm.getD col ColMeta.absent
+      !m.present || m.enc = "Null"
+
+/-- `groupby-valrows-streamed` (filed by C02): two or more grouping columns that cannot be bit-packed (value-rows
+    fallback) in a partition longer than the batch size. -/
+def valRowsStreamed (c : ApiCase) : Bool :=
+  let keys := c.sel.filterMap SelItem.keyCol?
+  keys.length ≥ 2 && (c.bounds.zip c.metas).any fun (b, pm) =>
+    decide (b.2 - b.1 > c.batchSize) &&
+      (Group.planPack ((keys.map fun k => pm.getD k ColMeta.absent).reverse.map fun m => ((effRange m).getD none, m.nullable)) 0).isNone
+
+/-- The specification's rows with the engine's treatment of a group without non-NULL input substituted
+    (COUNT → NULL, AVG → i64::MAX / i64::MAX = 1): the classifier of `count-null-group` requires that this
+    substitution reproduces the implementation's rows exactly. -/
+def countPatchedRows (c : ApiCase) : Option (List Row) :=
+  let keys := c.sel.filterMap SelItem.keyCol?
+  let cell (a : AggItem) (rows : List Row) : Res Val :=
+    let cells := (colCells a.col rows).filter (· ≠ .null)
+    if cells.isEmpty ∧ a.fn = .count then .ok .null
+    else if cells.isEmpty ∧ a.fn = .avg then .ok (.int 1)
+    else aggCell a rows
+  let rowOfP (rows : List Row) : Option Row :=
+    c.sel.mapM fun
+      | .key col => some (match rows with | r :: _ => r.getD col .null | [] => .null)
+      | .agg a => match cell a rows with | .ok v => some v | _ => none
+  match filterRows i2fNative c.pred c.rows with
+  | .ok kept => (groupRows keys kept).mapM fun g => rowOfP g.2
+  | _ => none
+
+def sameMultiset (impl : String) (rows : List Row) : Bool :=
+  if impl.startsWith "rows:" then
+    match parseRows (impl.drop 5).toString with
+    | some irows => sortStrings (irows.map showRow) = sortStrings (rows.map showRow)
+    | none => false
+  else false
+
+/-- Trigger of `groupby-null-key-order`: at least two partitions keep rows, and in some partition a grouping column
+    keeps both a NULL and a non-NULL cell.  Integer columns and dictionary-encoded strings are grouped on integer
+    codes with NULL fused to 0, value rows sort `Val::Null` first: that partition's result has the NULL group in
+    front, while the merge comparators order NULL (the in-band maximum / `None`) last.  (A single string grouping
+    column goes through hash grouping + a sort that puts NULL last and is not affected — it never fails the spec.) -/
+def nullKeyOrderTrigger (c : ApiCase) : Bool :=
+  let keys := c.sel.filterMap SelItem.keyCol?
+  match keptRows c with
+  | none => false
+  | some kepts =>
+      decide ((kepts.filter (fun k => !k.isEmpty)).length ≥ 2) &&
+      (kepts.zip c.metas).any fun (kept, pm) => keys.any fun col =>
+        let m := pm.getD col ColMeta.absent
+        let cells := colCells col kept
+        m.present && cells.any (· = .null) && cells.any (· ≠ .null)
+
+/-- Re-aggregate the implementation's rows by key tuple (COUNT / SUM add up, MIN / MAX combine): if the engine only
+    split groups into several rows, this reproduces the specification's rows.  `none` when the select list
+    contains AVG (a quotient cannot be recombined). -/
+def regroup (sel : List SelItem) (rows : List Row) : Option (List Row) :=
+  if sel.any (fun | .agg a => a.fn = .avg | .key _ => false) then none else
+  let keyOfRow (r : Row) : List Val := (sel.zip r).filterMap fun (s, v) => match s with | .key _ => some v | .agg _ => none
+  let comb (fn : AggFn) (a b : Val) : Option Val :=
+    match a, b with
+    | .null, v => some v
+    | v, .null => some v
+    | .int x, .int y =>
+        some (.int (match fn with
+          | .min => if x ≤ y then x else y
+          | .max => if x ≥ y then x else y
+          | _ => x + y))
+    | .float x, .float y =>
+        (match fn with
+         | .min => some (.float (if floatKey x ≤ floatKey y then x else y))
+         | .max => some (.float (if floatKey x ≥ floatKey y then x else y))
+         | _ => (floatSumExact [x, y]).map Val.float)
+    | _, _ => none
+  let merge (a b : Row) : Option Row :=
+    ((sel.zip a).zip b).mapM fun ((s, x), y) => match s with
+      | .key _ => some x
+      | .agg ag => comb ag.fn x y
+  let rec ins (fuel : Nat) (r : Row) : List Row → Option (List Row)
+    | [] => some [r]
+    | g :: gs =>
+        match fuel with
+        | 0 => none
+        | fuel + 1 =>
+            if keyOfRow g = keyOfRow r then (merge g r).map (· :: gs) else (ins fuel r gs).map (g :: ·)
+  rows.foldlM (fun acc r => ins (acc.length + 1) r acc) []
+
+/-- `groupby-compressed-key-type`: several grouping columns, one of them lz4 / pco compressed (decompressed type wider
+    than u8) in some partition, and a kept key value there that the 8-bit truncation changes. -/
+def compressedKeyTrigger (c : ApiCase) : Bool :=
+  let keys := c.sel.filterMap SelItem.keyCol?
+  keys.length ≥ 2 &&
+  match keptRows c with
+  | none => false
+  | some kepts => (kepts.zip c.metas).any fun (kept, pm) => keys.any fun col =>
+      let m := pm.getD col ColMeta.absent
+      (colCells col kept).any fun v => emitKey m v ≠ v
+
+/-- One partition: the specification's rows with every key cell replaced by the truncated value the engine emits. -/
+def truncPatchedRows (c : ApiCase) : Option (List Row) :=
+  -- (on top of the `count-null-group` substitution when that finding's trigger holds as well)
+  let base : Option (List Row) :=
+    if countNullGroup c then countPatchedRows c
+    else match specGroupBy i2fNative c.sel c.pred c.rows with | .ok srows => some srows | _ => none
+  match c.metas, base with
+  | [pm], some srows =>
+      some (srows.map fun r => (c.sel.zip r).map fun (s, v) => match s with
+        | .key col => emitKey (pm.getD col ColMeta.absent) v
+        | .agg _ => v)
+  | _, _ => none
+
+/-- Does re-aggregating the implementation's rows give the specification's rows?  (With AVG in the select list
+    this cannot be decided; the trigger alone then classifies.) -/
+def regroupMatches (c : ApiCase) (impl : String) : Bool :=
+  if !impl.startsWith "rows:" then false else
+  match parseRows (impl.drop 5).toString with
+  | none => false
+  | some irows =>
+      match regroup c.sel irows with
+      | none => c.sel.any (fun | .agg a => a.fn = .avg | .key _ => false)
+      | some rg =>
+          match specGroupBy i2fNative c.sel c.pred c.rows with
+          | .ok srows => sortStrings (rg.map showRow) = sortStrings (srows.map showRow)
+          | _ => false
+
+def judgeApi (impl : String) (spec : Res (List Row)) (mayOvf : Bool) : String :=
+  match spec with
+  | .unsupported => "SKIP"
+  | .overflow => if impl = "err:overflow" then "OK" else "BAD expected err:overflow"
+  | .ok rows =>
+      if impl = "err:overflow" ∧ mayOvf then "OK"
+      else if impl.startsWith "rows:" then
+        match parseRows (impl.drop 5).toString with
+        | some irows =>
+            let a := sortStrings (irows.map showRow)
+            let b := sortStrings (rows.map showRow)
+            if a = b then "OK" else "BAD expected rows:" ++ showRows rows
+        | none => "BAD unparsable implementation output"
+      else "BAD expected rows:" ++ showRows rows
+
+def stepGrp (sel wh impl bounds metaTok phys : String) (colToks : List String) : String :=
+  match (sel.splitOn ",").mapM parseSelItem, parseOptExpr wh, colToks.mapM parseCells, parseBounds bounds, parseMeta metaTok with
+  | some s, some p, some cs, some bs, some ms =>
+      let n := (cs.head?.map List.length).getD 0
+      let rows := transpose cs n
+      let batchSize := ((phys.splitOn "/").getD 5 "1024").toNat?.getD 1024
+      let c : ApiCase := ⟨s, p, impl, bs, ms, rows, cs, batchSize⟩
+      let spec := judgeApi impl (specGroupBy i2fNative s p rows) (mayOverflow i2fNative s p rows)
+      let run := runModel c
+      let outs := match run.early with
+        | some o => [showOut o]
+        | none => run.outs.map showOut
+      -- nondeterministic merge tree: the model agrees if the implementation shows the outcome of SOME bracketing
+      let model :=
+        if floatNullKeyTrigger c ∧ !absentTrigger c then "err:fatal"
+        else if outs.contains impl then impl else outs.headD "?"
+      let modelAgrees := model = impl
+      let known :=
+        if spec = "OK" ∨ spec = "SKIP" then ""
+        else if floatNullKeyTrigger c ∧ !absentTrigger c ∧ impl = "err:fatal" then "groupby-nullable-float-key"
+        else if absentTrigger c then "groupby-absent-column"
+        else if valRowsStreamed c then "groupby-valrows-streamed"
+        else if compressedKeyTrigger c ∧ (modelAgrees ∨ (model = "?" ∧
+            (c.metas.length ≥ 2 ∨ (truncPatchedRows c).any (sameMultiset impl)))) then "groupby-compressed-key-type"
+        else if modelAgrees ∧ run.parts.length ≥ 2 ∧ run.parts.any (fun p => !keysAscending p) then "groupby-null-key-order"
+        else if nullKeyOrderTrigger c && regroupMatches c impl then "groupby-null-key-order"
+        else if modelAgrees ∧ sumHitsSentinel c then "sum-sentinel"
+        else if countNullGroup c ∧ (modelAgrees ∨ (countPatchedRows c).any (sameMultiset impl)) then "count-null-group"
+        else ""
+      model ++ "\t" ++ spec ++ (if known = "" then "" else "\t" ++ known)
+  | _, _, _, _, _ => "bad-op\tbad-op"
+
+def step (line : String) : String :=
+  match splitTokens line with
+  | ["dedup", l, r, k, o] => stepDedup l r (k ++ " " ++ o)
+  | ["dedup", l, r, x] => stepDedup l r x
+  | ["mdrop", kl, kr, cl, cr] => stepDrop kl kr cl cr
+  | ["part", lim, l, r, impl] => stepPart lim l r impl
+  | ["subpart", p, l, r] => stepSubpart p l r
+  | ["mdp", p, l, r] => stepMdp p l r
+  | "mtree" :: op :: nk :: t :: rest =>
+      -- the implementation's output is appended after `|` by the harness
+      let (args, impl) := (rest.takeWhile (· ≠ "|"), " ".intercalate ((rest.dropWhile (· ≠ "|")).drop 1))
+      stepTree op nk t args impl
+  | "grp" :: sel :: wh :: impl :: bounds :: metaTok :: phys :: _n :: cols => stepGrp sel wh impl bounds metaTok phys cols
+  | "skip" :: _ => "?\tSKIP"
+  | _ => "bad-op\tbad-op"
+
+end LM.DrvC04
+
+def main : IO Unit := LM.Proto.runDriver LM.DrvC04.step
